@@ -79,6 +79,7 @@ type A struct {
 
 	locks    *Locks
 	taint    *Taint
+	sinks    *SinkInfo
 	apiReach map[*ssa.Function]bool
 
 	obs      []*Ob
